@@ -24,7 +24,7 @@ def translate():
     body = [s for s in strip_doc(fn.body) if not isinstance(s, (ast.Import, ast.ImportFrom))]
     d = body[0]
     need(isinstance(d, ast.If) and _ns(d.test) == "self.config.vectorize"
-         and _ns(d.body[0]) == "return(self.config.log_likelihood(x),None)", d, "vectorised branch", w)
+         and _ns(d.body[0]) == "return(np.asarray(self.config.log_likelihood(x),dtype=float),None)", d, "vectorised branch: one call on the whole batch, result as float64", w)
     e1 = d.orelse[0]
     need(isinstance(e1, ast.If) and _ns(e1.test) == "self.config.poolisnotNone"
          and _ns(e1.body[0]) == "results=list(self._get_distribute_func()(self.config.log_likelihood,x))", e1, "pool branch", w)
@@ -33,7 +33,9 @@ def translate():
     need("blob=[item[1:]foriteminresults]" in txt and "logl=np.array([float(item[0])foriteminresults])" in txt
          and "logl=np.array([float(value)forvalueinresults])" in txt, fn, "result assembly", w)
     gd = _ns(get_function(core, "SamplerCore._get_distribute_func"))
-    need("returnpool.map" in gd and "returnself.config.pool.map" in gd and "returnmap" in gd, fn, "distribute function", "core.py:_get_distribute_func")
+    need("returnpool.map" in gd and "returnself.config.pool.map" in gd and gd.count("returnmap") == 2
+         and "ifself.config.pool<=1:returnmap" in gd.replace("\n", "") and "pool=Pool(int(self.config.pool))" in gd, fn,
+         "distribute function: builtin map without a pool and for one process, Pool(n).map for a number, pool.map for an object", "core.py:_get_distribute_func")
     # accounting
     mc = REPO / "tempest" / "mcmc.py"
     w = "mcmc.py:BaseMCMCRunner._evaluate_likelihood"
@@ -72,20 +74,29 @@ Definition evaluate_likelihood_calls : nat := 1.
 
 
 class Counter:
-    def __init__(self, blobs, hole=False):
+    def __init__(self, blobs, hole=False, f32=False):
         self.rows = 0
         self.blobs = blobs
         self.hole = hole
+        self.f32 = f32      # the likelihood hands out single-precision values (a JAX / float32 model): the same values in every strategy
 
     def scalar(self, x):
         self.rows += 1
+        if getattr(self, "logpath", None):
+            # evaluations in worker processes are invisible to self.rows: every evaluation, wherever it happens, appends one byte
+            with open(self.logpath, "ab") as fh:
+                fh.write(b"x")
         v = -0.5 * float(np.sum(x ** 2)) - 0.1 * float(np.sum(np.cos(3 * x)))
         if self.hole and x[0] < -1.0:
             v = -np.inf  # a hard constraint: zero likelihood on a third of the prior
+        if self.f32:
+            v = np.float32(v)
         return (v, float(x[0] + 1.0)) if self.blobs else v
 
     def vec(self, X):
-        return np.array([self.scalar(x) for x in X])
+        if getattr(self, "as_list", False):
+            return [self.scalar(x) for x in X]        # a vectorised likelihood may return any sequence of numbers
+        return np.array([self.scalar(x) for x in X], dtype=np.float32 if self.f32 else float)
 
     def vec_buffer(self, X):
         # a vectorised likelihood that writes into one preallocated output array and returns it every time (legal: the values are
@@ -141,20 +152,26 @@ class RichPool(PoolLike):
 def one(cfg, strategy, seed, blobs):
     from tempest import Sampler
     kw = dict(cfg)
-    c = Counter(blobs, hole=kw.pop("hole", False))
-    if strategy == "vectorize":
+    c = Counter(blobs, hole=kw.pop("hole", False), f32=kw.pop("f32", False))
+    if strategy == "vectorize-list":
+        c.as_list = True
+        like, kw["vectorize"] = c.vec, True
+    elif strategy == "vectorize":
         like, kw["vectorize"] = c.vec, True
     elif strategy == "vectorize-buffer":
         like, kw["vectorize"] = c.vec_buffer, True
     elif strategy == "intpool":
         like, kw["pool"] = c.scalar, 2          # the library starts its own worker processes
+        import tempfile
+        c.logpath = tempfile.mkstemp(prefix="c13_rows_")[1]
     else:
         like = c.scalar
         if strategy == "richpool":
             kw["pool"] = RichPool(seed)
         elif strategy != "scalar":
             kw["pool"] = PoolLike(strategy, seed)
-    s = Sampler(lambda u: 6 * u - 3, like, n_dim=2, n_particles=10, random_state=seed,
+    f32x = kw.pop("f32x", False)     # single-precision coordinates from the prior transform (the likelihood still returns doubles)
+    s = Sampler((lambda u: (6 * u - 3).astype(np.float32)) if f32x else (lambda u: 6 * u - 3), like, n_dim=2, n_particles=10, random_state=seed,
                 blobs_dtype=float if blobs else None, **kw)
     s.run(n_total=40, progress=False)
     hist = s.state
@@ -163,17 +180,24 @@ def one(cfg, strategy, seed, blobs):
     x, w, l = s.posterior()
     dig["post"] = x.tobytes() + w.tobytes() + l.tobytes()
     dig["evidence"] = np.float64(s.evidence()[0]).tobytes()
-    return dig, int(hist.get_current("calls")), c.rows, [int(v) for v in hist.get_history("calls")]
+    rows = c.rows
+    if getattr(c, "logpath", None):
+        import os
+        rows = os.path.getsize(c.logpath)      # one byte per evaluation, in whatever process
+        os.unlink(c.logpath)
+    return dig, int(hist.get_current("calls")), rows, [int(v) for v in hist.get_history("calls")]
 
 
 def sweep(run, tier, rng):
-    cfgs = [dict(clustering=False), dict(clustering=True, sample="rwm"), dict(clustering=False, resample="syst", hole=True)]
+    cfgs = [dict(clustering=False), dict(clustering=True, sample="rwm"), dict(clustering=False, resample="syst", hole=True),
+            dict(clustering=False, f32=True), dict(clustering=True, sample="rwm", resample="syst", f32=True, hole=True),
+            dict(clustering=False, f32x=True)]
     if tier != "quick":
         cfgs += [dict(clustering=True, resample="syst"), dict(clustering=False, sample="rwm", volume_variation=0.5)]
     for ci, cfg in enumerate(cfgs):
         for blobs in ([False, True] if tier != "quick" or ci == 0 else [False]):
             seed = rng.randrange(10 ** 6)
-            strategies = ["scalar", "inorder", "reversed", "shuffled", "lazy", "richpool"] + ([] if blobs else ["vectorize", "vectorize-buffer"]) \
+            strategies = ["scalar", "inorder", "reversed", "shuffled", "lazy", "richpool"] + ([] if blobs else ["vectorize", "vectorize-buffer", "vectorize-list"]) \
                 + (["intpool"] if ci == 0 and not blobs else [])
             res = {}
             for st in strategies:
@@ -186,8 +210,6 @@ def sweep(run, tier, rng):
                 run.case(key=(ci, blobs, st), nontrivial=st != "scalar")
                 run.count(f"strategy={st}")
                 dig, calls, rows, hist_calls = res[st]
-                if st == "intpool":
-                    rows = calls   # evaluated in worker processes: this process cannot count them
                 if calls != rows:
                     run.fail("calls-miscounted", f"reported calls={calls} but the likelihood was evaluated at {rows} points", **what)
                 if any(b < a for a, b in zip(hist_calls, hist_calls[1:])):
